@@ -76,4 +76,8 @@ C16_SyncedAtEnd(r) == (Dead(r) /\ CanReport(r)) => r.obs.us_end = "last"
 \* while the work is still in progress in the child (its do_work frame is on the stack)
 C16_InitialWhileAlive(r) == (r.scn.kind \in {"process", "remote"} /\ r.scn.in_work = "T") => r.obs.us_alive \in {"init", "na"}
 C16_SetterRejected(r) == r.obs.setter \in {"rejected", "na"}
+\* a child that has reported but is still alive (wait(timeout) said False, is_alive() said True): still the initial state
+C16_InitialWhileLingering(r) == r.scn.kind \in {"process", "remote"} => r.obs.linger \in {"init", "na"}
+\* restart() starts the new incarnation from the last synchronised state (whatever the caller looked at before)
+C16_RestartFrom(r) == r.obs.restart_from \in {"last", "na"}
 ==============================================================================
